@@ -14,6 +14,7 @@ PLAN = {
     "C09": dict(families=[("comp", 30, 300)], oracle=lambda h: [f for f in T.oracle_components(h) if f[0] == "C09"],
                 slices=["comp"], ref="§7 C09"),
     "C01": dict(families=[("ent", 40, 400)], oracle=lambda h: T.oracle_entities(h), slices=["ent"], ref="§7 C01"),
+    "C15": dict(families=[("conn", 40, 400)], oracle=lambda h: T.oracle_conn(h), slices=["conn"], ref="§7 C15"),
     "C05": dict(families=[("parent", 36, 400)], oracle=lambda h: T.oracle_parents(h), slices=["parent"], ref="§7 C05"),
     "C04": dict(families=[("filter", 30, 300)], oracle=lambda h: T.filter_checks(h)[1], slices=["filter"], ref="§7 C04"),
     "C17": dict(families=[("fix", 30, 300)],
@@ -52,7 +53,7 @@ def slice_lines(h, kind, flags):
 
 def read_flags():
     flags = {}
-    for f in ("Sync.lean", "Guards.lean"):
+    for f in ("Sync.lean", "Guards.lean", "Conn.lean"):
         p = os.path.join(C.LEAN, "BevySyncModel", "Generated", f)
         if os.path.exists(p):
             for m in re.finditer(r"def (\w+) : Bool := (true|false)", open(p).read()):
@@ -119,11 +120,15 @@ def check(prop_id, tier, seed, replay=None):
             for l in T.filter_checks(h)[0]:
                 inst_of[l.split(" ")[1]] = (h, {})
                 lines.append(l)
+        if "conn" in plan["slices"]:
+            for l in T.conn_lines(h, flags.get("connClientDisconnectLegacy", False)):
+                inst_of[l.split(" ")[1]] = (h, {})
+                lines.append(l)
         if "fixrun" in plan["slices"]:
             for l in T.fix_cases(h, flags.get("fixReinsertsValue", False))[0]:
                 inst_of[l.split(" ")[1]] = (h, {})
                 lines.append(l)
-        for kind in [k for k in plan["slices"] if k not in ("fault", "skin", "fixrun", "filter")]:
+        for kind in [k for k in plan["slices"] if k not in ("fault", "skin", "fixrun", "filter", "conn")]:
             for inst, ls, meta in slice_lines(h, kind, flags):
                 if ls is None:
                     skipped += 1
